@@ -30,27 +30,19 @@ REQUIRED = [
     'nominate_ok_iff_admits', 'nominate_rejects_with_candidateError',
     'bounds_inclusive', 'bounds_inclusive_ends', 'bounds_one_sided', 'bounds_check_iff_within',
     'bounds_crossing_rejects_all', 'bounds_none_accepts_all', 'boundMap_get_default',
-    'validate_iff_valid_simple', 'validate_iff_valid_approval',
-    'validate_iff_valid_ranked_anyset', 'validRanked_iff_anyset', 'validate_iff_valid_ranked_partial',
-    'validate_iff_valid_ranked_witness',
+    'validate_iff_valid_simple', 'validate_iff_valid_approval', 'validate_iff_valid_ranked',
+    'ranked_mutable_set_rank_rejected',
     'validateScoreBase_iff', 'validate_iff_valid_enumscore', 'validate_iff_valid_range', 'validate_iff_valid_key',
     'rejections_are_library_errors_simple', 'rejections_are_library_errors_approval',
-    'rejections_are_library_errors_ranked', 'scoreBase_typeError',
-    'rejections_are_library_errors_enumscore_partial', 'rejections_are_library_errors_enumscore_witness',
-    'rejections_are_library_errors_range_partial', 'rejections_are_library_errors_range_witness',
-    'eliminator_ok_removes_exactly_rejected', 'eliminator_removes_exactly_rejected_partial',
-    'eliminator_removes_exactly_rejected_witness', 'eliminator_raises_only_escaped_errors', 'eliminator_keeps_counts',
-    'approval_candidateError_iff', 'approval_voteError_iff', 'scoreBase_typeError_iff', 'enumscore_typeError_iff',
-    'range_typeError_iff',
+    'rejections_are_library_errors_ranked', 'scoreBase_no_typeError',
+    'rejections_are_library_errors_enumscore', 'rejections_are_library_errors_range',
+    'nonnumeric_score_under_bound_is_voteError', 'validator_no_typeError',
+    'eliminator_removes_exactly_rejected', 'eliminator_never_raises', 'eliminator_keeps_counts',
+    'approval_candidateError_iff', 'approval_voteError_iff',
     'valid_approval_perm', 'validScoreBase_perm', 'valid_enumscore_perm', 'valid_range_perm', 'accept_order_independent',
     'valid_ranked_perm', 'accept_ranked_order_independent', 'ranked_default_names', 'approval_names',
-    'eliminator_simple_never_removes',
 ]
-UNPROVED = [
-    'validate_iff_valid_ranked (false of the code: a mutable set at a rank is accepted; see _partial/_witness)',
-    'rejections_are_library_errors_enumscore / _range (false of the code: TypeError leaks; see _partial/_witness)',
-    'eliminator_removes_exactly_rejected (false of the code: CandidateError/TypeError propagate; see _partial/_witness)',
-]
+UNPROVED = []
 REQUIRED_COUNTERS = [
     'vt:simple', 'vt:approval', 'vt:ranked', 'vt:enum', 'vt:range', 'op:eliminate',
     'valid', 'invalid', 'lower_bound_hit', 'upper_bound_hit', 'just_below', 'just_above', 'crossing_bounds',
@@ -74,8 +66,8 @@ NOT_VERIFIED = [
     'equality / hashing of Python values is modelled as structural equality of encodings (candidate objects by identity)',
     'candidate classes are modelled by kind (Person with/without candidacy_for, PoliticalParty, Coalition, BlankVoteOption); '
     'user-defined candidate classes and bool scores are outside the grammar',
-    'validators constructed with explicit per-rank / per-count checker dictionaries (plain dicts) are checked by the oracle only, '
-    'not modelled in Lean (they raise KeyError for unlisted keys: open finding)',
+    'the constructors (bound tuple / bound dict / explicit checker objects / explicit checker dicts) are modelled by their result, '
+    'a lookup-with-default of bounds; all four routes are exercised by the correspondence',
     'the defaultdict of per-rank / per-count checkers is modelled as lookup-with-default',
     'the predicates Obj.hashable / Obj.wf used as theorem hypotheses are validated against hash() of the real objects (op shape)',
 ]
@@ -84,8 +76,8 @@ TECHNIQUE = ('Lean 4 proof that each validator model accepts exactly the declara
              'configurations) + differential correspondence of the model with votelib on generated and exhaustively enumerated ballots')
 LEVEL_TEXT = ('The nominators, VoteMagnitudeChecker, the five validators and InvalidVoteEliminator are modelled check by check in Lean over '
               'an inductive grammar of Python values; acceptance is proved equivalent to a declarative validity predicate for every value '
-              'and configuration, the error classes are characterised, and the deviations of the code (TypeError leaks, CandidateError '
-              'escaping the eliminator, mutable set at a rank) are proved on concrete witnesses and listed as known findings.')
+              'and configuration, rejections are proved to be VoteError / CandidateError only, and the filter is proved to remove exactly '
+              'the invalid ballots keeping order and counts; the six deviations found on the way were repaired in /repo (fixed findings).')
 LEVEL_NOTE = ('Trusted: Lean kernel + propext/Classical.choice/Quot.sound; the correspondence harness (object builder/encoder, generator '
               'bounds: depth <= 3, <= 6 members) and the abstractions listed under modelled_not_verified.')
 
@@ -335,8 +327,7 @@ def model_line(case):
     if case['op'] == 'shape':
         pool, validator, obj = _built(case)
         return {'op': 'shape', 'vote': pool.encode(obj)}
-    if uses_plain_dicts(case['val']):
-        return None          # explicit plain-dict checkers are outside the Lean model (oracle only)
+    # explicit plain-dict checkers are wrapped into a defaultdict by the constructors (84faad8): same model
     pool, validator, obj = _built(case)
     val = {k: v for k, v in case['val'].items() if k != 'via'}
     if val['vt'] == 'ranked' and val.get('rank') is None:
